@@ -159,6 +159,7 @@ fn main() {
             "st" => subtype_case(&p[1]),
             "deep" => deep_case(p[1].parse().unwrap(), p[2].parse().unwrap()),
             "co" => coerce_case(&p[1], &p[2], if p.len() > 3 { &p[3] } else { "" }),
+            "nt" => native_case(p[1].parse().unwrap(), &p[2]),
             "rd" => refdecode_case(&p[1], &p[2], &p[3]),
             "rds" => refdecode_short(&p[1], &p[2], &p[3]),
             "h" => history_case(&p[1]),
@@ -215,6 +216,61 @@ fn quota_case(case: usize, dq: &str, sq: &str) -> String {
     }
 }
 
+
+// ---------------------------------------------------------------- native decoding against the spec's coercion (vc/native_standin.py)
+mod nat_ty {
+    use candid::{CandidType, Deserialize, Nat};
+    #[derive(CandidType, Deserialize, Debug, PartialEq, Clone)]
+    pub struct R1 { pub a: u8, pub b: Option<String>, pub c: Vec<bool> }
+    #[derive(CandidType, Deserialize, Debug, PartialEq, Clone)]
+    pub enum V1 { A, B(i16), C { x: Option<u8> } }
+    #[derive(CandidType, Deserialize, Debug, PartialEq, Clone)]
+    pub struct List { pub head: i8, pub tail: Option<Box<List>> }
+    #[derive(CandidType, Deserialize, Debug, PartialEq, Clone)]
+    pub struct T2(pub u8, pub String);
+    #[derive(CandidType, Deserialize, Debug, PartialEq, Clone)]
+    pub struct R2 { pub inner: R1, pub more: Vec<V1>, pub note: Option<Nat> }
+    #[derive(CandidType, Deserialize, Debug, PartialEq, Clone)]
+    pub enum V2 { P(i16, u8), Q }
+}
+
+fn native_case(k: usize, hexmsg: &str) -> String {
+    use candid::{Decode, Encode, Int, Nat, Principal, Reserved};
+    use nat_ty::*;
+    use std::collections::BTreeMap;
+    let b = hexd(hexmsg);
+    macro_rules! one { ($t:ty) => { match Decode!(&b, $t) { Ok(v) => format!("ok {}", hexe(&Encode!(&v).unwrap())), Err(_) => "err".to_string() } } }
+    macro_rules! two { ($t:ty, $u:ty) => { match Decode!(&b, $t, $u) { Ok((v, w)) => format!("ok {}", hexe(&Encode!(&v, &w).unwrap())), Err(_) => "err".to_string() } } }
+    match k {
+        0 => one!(Vec<u8>),
+        1 => one!(Vec<Option<i32>>),
+        2 => one!(Option<Vec<u16>>),
+        3 => one!(R1),
+        4 => one!(V1),
+        5 => one!(BTreeMap<String, u32>),
+        6 => one!(BTreeMap<u8, Vec<u8>>),
+        7 => two!(Int, Nat),
+        8 => one!(Vec<Int>),
+        9 => one!(Vec<Nat>),
+        10 => two!(u128, i128),
+        11 => one!(List),
+        12 => one!(T2),
+        13 => one!(Result<u8, String>),
+        14 => one!(Option<Option<u8>>),
+        15 => one!(Vec<Vec<u8>>),
+        16 => match Decode!(&b, Principal, Reserved, Option<i64>) { Ok((x, y, z)) => format!("ok {}", hexe(&Encode!(&x, &y, &z).unwrap())), Err(_) => "err".to_string() },
+        17 => one!(R2),
+        18 => two!(bool, String),
+        19 => one!(Vec<(u16, Option<String>)>),
+        20 => one!(BTreeMap<u8, Option<u8>>),
+        21 => one!(V2),
+        22 => two!(Vec<(u16, Option<String>)>, Vec<u8>),
+        23 => two!(Vec<u64>, Vec<i16>),
+        24 => one!(Option<Box<List>>),
+        25 => one!(Vec<()>),
+        _ => "bad".to_string(),
+    }
+}
 
 mod hist {
     use candid::{CandidType, Deserialize, Int};
